@@ -105,6 +105,12 @@ func (fs *ReadOnlyFS) copyFile(name string, f hackpadfs.File, info hackpadfs.Fil
 	}
 	buf := make([]byte, 512)
 	_, err = io.CopyBuffer(destFileWriter, f, buf)
+	if err == nil && info.Mode()&(hackpadfs.ModeSetuid|hackpadfs.ModeSetgid|hackpadfs.ModeSticky) != 0 {
+		// creating a file only applies permission bits; carry the source's remaining mode bits over when the cache store can
+		if chmodErr := hackpadfs.ChmodFile(destFile, info.Mode()); chmodErr != nil && !errors.Is(chmodErr, hackpadfs.ErrNotImplemented) {
+			err = chmodErr
+		}
+	}
 	return err
 }
 
